@@ -66,9 +66,9 @@ type state struct {
 func (prop) Run(t *testing.T, s *sim.Sim, res *runner.Result) {
 	st := &state{s: s, beta: map[string]bool{}, revN: map[string]int{}, gone: map[string]bool{}, evAt: map[int]int{}}
 	xrworld.Run(s, res, xrworld.Hooks{
-		Opts:     func(tp *sim.Tape) xrworld.Opts { return xrworld.Opts{FnFaults: true} },
+		Opts:     func(tp *sim.Tape) xrworld.Opts { lag := tp.Next(2) == 1; return xrworld.Opts{FnFaults: true, LagComposed: lag, LagManual: lag && tp.Next(2) == 1} },
 		Params:   xrworld.DrawParams{ForcePipeline: true, Fatal: true, Requirements: true, Conditions: true, Contract: true},
-		Faults:   []sim.Outcome{sim.ErrBefore, sim.ErrAfter, sim.Conflict, sim.CrashBefore, sim.CrashAfter},
+		Faults:   []sim.Outcome{sim.ErrBefore, sim.ErrAfter, sim.Conflict, sim.CrashBefore, sim.CrashAfter, sim.Stale},
 		MaxChaos: 200,
 		Setup: func(w *xrworld.W, wl *xrworld.Workload) error {
 			st.w, st.wl, st.fn = w, wl, w.Fn
@@ -79,7 +79,7 @@ func (prop) Run(t *testing.T, s *sim.Sim, res *runner.Result) {
 				st.revN[f] = 1
 			}
 			for i, n := range []string{"e0", "e1", "e2"} {
-				u := extra(n, map[string]any{"grp": "x"})
+				u := extra(n, map[string]any{"grp": "x", "tier": []string{"a", "b", "a"}[i]})
 				if i < 2 {
 					_ = unstructured.SetNestedField(u.Object, fmt.Sprintf("e%d", i+1), "spec", "next")
 				}
@@ -131,6 +131,21 @@ func (prop) Run(t *testing.T, s *sim.Sim, res *runner.Result) {
 			} else {
 				acts = append(acts, sim.Action{Key: "function: uninstalled", Weight: 1, Run: func() { st.reinstall(tp, false) }})
 			}
+			if xs, cs := w.XRObjects(), w.ComposedObjects(); len(xs) > 1 && len(cs) > 0 {
+				acts = append(acts, sim.Action{Key: "user: points an XR's resourceRefs at a composed resource of another XR", Weight: 1, Run: func() {
+					x := xs[tp.Next(len(xs))].DeepCopy()
+					c := cs[tp.Next(len(cs))]
+					if c.OwnerUID == x.GetUID() || c.OwnerUID == "" {
+						return
+					}
+					refs, _, _ := unstructured.NestedSlice(x.Object, "spec", "resourceRefs")
+					refs = append(refs, map[string]any{"apiVersion": c.Obj.GetAPIVersion(), "kind": c.Obj.GetKind(), "name": c.Obj.GetName()})
+					_ = unstructured.SetNestedSlice(x.Object, refs, "spec", "resourceRefs")
+					if w.Direct.Update(context.Background(), x) == nil {
+						s.Probe("xr-references-resource-of-another-xr")
+					}
+				}})
+			}
 			if !w.Core.Dead {
 				acts = append(acts, sim.Action{Key: "core: garbage collect function connections", Weight: 2, Run: func() {
 					r := w.Runner
@@ -170,11 +185,11 @@ func (st *state) editExtra(tp *sim.Tape) {
 		if err == nil {
 			_ = st.w.Direct.Delete(ctx, cur)
 		} else {
-			_ = st.w.Direct.Create(ctx, extra(n, map[string]any{"grp": "x"}))
+			_ = st.w.Direct.Create(ctx, extra(n, map[string]any{"grp": "x", "tier": []string{"a", "b"}[tp.Next(2)]}))
 		}
 	case 1:
 		if err == nil {
-			ls := map[string]string{"grp": []string{"x", "y"}[tp.Next(2)]}
+			ls := map[string]string{"grp": []string{"x", "y"}[tp.Next(2)], "tier": []string{"a", "b"}[tp.Next(2)]}
 			cur.SetLabels(ls)
 			_ = st.w.Direct.Update(ctx, cur)
 		}
@@ -781,6 +796,42 @@ func (st *state) judgeObserved(tk *sim.Task, mine []*simapi.LogEntry, firstSeq i
 		if structCanon(or.GetResource()) != canon(m) {
 			st.violate(tk, "observed-resource-differs-from-object-read", "observed resource %q is not the object this reconcile read", n)
 			return
+		}
+	}
+	// completeness against the cluster itself: a composed resource that the XR
+	// references and controls and that existed, unchanged in identity, from the
+	// start of this reconcile until its first function call cannot be missing
+	// (whatever the cache said and whichever read failed on the way)
+	if len(mine) > 0 {
+		for ref := range refs {
+			parts := strings.SplitN(ref, "/", 2)
+			k := simapi.ObjKey{Group: xrworld.ThingGVK.Group, Kind: parts[0], Name: parts[1]}
+			if !composedKind(k) {
+				continue
+			}
+			a, b := st.w.Store.StateAt(mine[0].Seq, k), st.w.Store.StateAt(firstSeq, k)
+			if a == nil || b == nil {
+				continue
+			}
+			ua, ub := &unstructured.Unstructured{Object: a}, &unstructured.Unstructured{Object: b}
+			if ua.GetUID() != ub.GetUID() {
+				continue
+			}
+			ctrl := types.UID("")
+			for _, o := range ub.GetOwnerReferences() {
+				if o.Controller != nil && *o.Controller {
+					ctrl = o.UID
+				}
+			}
+			n := ub.GetAnnotations()["crossplane.io/composition-resource-name"]
+			if ctrl != xrUID || n == "" || ua.GetAnnotations()["crossplane.io/composition-resource-name"] != n {
+				continue
+			}
+			if _, ok := obs.GetResources()[n]; !ok {
+				st.violate(tk, "existing-composed-resource-not-observed", "composed resource %q (%s) is referenced and controlled by this XR and existed throughout the reconcile, but is missing from the observed state sent to the functions (observed: %v)", n, ref, names(obs))
+				return
+			}
+			st.s.Probe("observed-resource-confirmed-in-store")
 		}
 	}
 	for n := range obs.GetResources() {
